@@ -139,6 +139,23 @@ def gen_cases(ctx):
             # the edge-type names are parameters of m_separated: non-default names must behave the same
             case["names"] = {"D": "arrow", "B": "confounded", "U": "line", "C": "circle"}
         yield case
+    # (iii) long connecting paths by construction (several colliders opened by Z or by a descendant in Z,
+    # undirected and bidirected stretches between them) and their one-node perturbations
+    for i in range(4000 if tier == "quick" else 40000):
+        g, x, y, Z, col, non = C.rand_path_template(rng)
+        r = rng.random()
+        if r < 0.25 and Z:
+            Z = [z for z in Z if z != rng.choice(Z)]
+        elif r < 0.4 and non:
+            Z = sorted(set(Z) | {rng.choice(non)})
+        elif r < 0.5:
+            others = [v for v in C.g_nodes(g) if v not in (x, y) and v not in Z]
+            if others:
+                Z = sorted(set(Z) | {rng.choice(others)})
+        case = {"g": g, "X": [x], "Y": [y], "Z": sorted(Z), "src": "path", "fam": fams[i % len(fams)]}
+        if i % 5 == 0 and not g["U"]:
+            case["cls"] = "ADMG"
+        yield case
 
 
 def judge(ctx, case, got, model, base):
@@ -169,7 +186,7 @@ def run(ctx):
     ev.rule = ("exhaustive: every graph on 2-3 nodes (thorough: 4) over pair states {none,->,<-,<->,->+<->,<-+<->,--} "
                "inside the C01 domain (cyclic directed layers kept for the guard) x every disjoint (X,Y,Z); random: "
                "n in 4..8, DAG-ordered ADMGs, bows, ancestral graphs with undirected parts, cyclic graphs, shuffled "
-               "insertion order, five label families, missing layers, ADMG class. non-trivial = Z non-empty and the "
+               "insertion order, all label families, missing layers, ADMG class, non-default edge-type names; path templates: graphs grown around one long path (3-7 hops, colliders opened by Z or by a descendant in Z, undirected / bidirected stretches) with Z making it connecting, and one-node perturbations of that Z. non-trivial = Z non-empty and the "
                "verified model's answer differs from its answer for Z={} (conditioning matters)")
     ev.assumptions = ["node sets are subsets of V and pairwise disjoint (the property's quantifier)",
                       "label->index bijection and canonicalisation in harness/common.py"]
